@@ -17,7 +17,7 @@ ASSUMPTIONS = G.E1_ASSUMPTIONS + ["step bounds are generous constants for the ge
                                   "lock-free operations are run without interference only (solo run), which is what lock-freedom promises", "bounded: <=4 suspended threads, freeze step <= 400 (<= 1300 for the count-driven lazy-shrink programs)"]
 EXAMPLES = {"quick": 250, "thorough": 5000}
 CDS_FLAGS = {1: "wouldblock_returned", 8: "solo_op_completed", 9: "suspended_thread_mid_operation"}
-LFHT_FLAGS = {9: "suspended_thread_mid_operation", 10: "suspended_mid_resize", 5: "lazy_resize"}
+LFHT_FLAGS = {9: "suspended_thread_mid_operation", 10: "suspended_mid_resize", 5: "lazy_resize", 11: "ballast_nodes_long_chain_or_full_table"}
 GP_FLAGS = {7: "suspended_inside_synchronize_rcu"}
 
 
@@ -29,6 +29,8 @@ def example(draw, tier):
         prog, nops, sync, solo = gen.cds_solo_program(draw, tier, kind)
         flavor = draw(st.sampled_from(["memb", "mb", "qsbr", "bp"])) if sync == 2 else "memb"
         head = ["scen cds_" + flavor, "cfg membarrier 1"]
+        if draw(st.integers(0, 3)) == 0:
+            head.append("cfg addrline %d" % draw(st.integers(1, 14)))   # one allocation of the case sits exactly on a 4 GiB address line
         nd = 1 if sync == 2 else 0
     elif fam == "lfht":
         flavor = draw(st.sampled_from(["memb", "mb", "qsbr", "bp"]))
@@ -38,6 +40,8 @@ def example(draw, tier):
             frange = (300, 1300)   # the pre-population alone takes ~350 steps; the interesting states (first lazy shrink requested, worker behind) come later
         solo = len(nops) - 1
         head = ["scen lfht_" + flavor, "cfg membarrier 1"]
+        if draw(st.integers(0, 3)) == 0:
+            head.append("cfg addrline %d" % draw(st.integers(1, 14)))   # one allocation of the case sits exactly on a 4 GiB address line
         nd = 3
     else:
         flavor = draw(st.sampled_from(gen.GP_FLAVORS))
@@ -48,7 +52,7 @@ def example(draw, tier):
     for _ in range(gen.BATCH):
         sched = gen.schedule_lines(draw, tier, len(nops), nops, ndaemons=nd)
         f = draw(st.integers(*frange))
-        out.append("\n".join(head + prog + sched + ["freeze %d %d" % (f, solo)]) + "\n")
+        out.append("\n".join(head + prog + sched + ["freeze %d %d" % (f, solo)] + gen.budget_lines(prog)) + "\n")
     return out
 
 
